@@ -316,7 +316,7 @@ func (f *filler) fill(v reflect.Value, top bool) {
 	case reflect.Slice:
 		n := f.length()
 		if t.Elem().Kind() == reflect.Uint16 {
-			n = n % 64 // word arrays (setup words) count against the 255-word parameter block
+			n = n % 231 // word arrays (setup words) count against the 255-word parameter block
 		}
 		if t.Elem().Kind() == reflect.Struct || t.Elem().Kind() == reflect.String {
 			n = n % 4
@@ -380,12 +380,17 @@ func ApplyRelations(v reflect.Value, rels []Relation) (unconstrained []string) {
 		related[r.Slice] = true
 		switch {
 		case r.Kind == "utf16z":
+			// UTF-16LE code units, none of them 0x0000 (single zero bytes are fine and wanted:
+			// "A" followed by U+0100 is 41 00 00 01)
 			b := fv.Bytes()
 			b = b[:len(b)&^1]
-			for i := range b {
-				if b[i] == 0 {
+			for i := 0; i+1 < len(b); i += 2 {
+				if b[i] == 0 && b[i+1] == 0 {
 					b[i] = 0x41
 				}
+			}
+			if len(b) >= 4 && b[0]%2 == 0 {
+				copy(b, []byte{0x41, 0x00, 0x00, 0x01})
 			}
 			fv.SetBytes(b)
 		case r.Kind == "pad01":
@@ -677,4 +682,44 @@ func FindSlots(c ci.CommandInterface, t reflect.Type) (base []byte, slots []Slot
 	// restore the encoding state of c
 	mon.Guard(func() { c.Marshal() })
 	return base, slots, true
+}
+
+// AlignPads sets every 0-or-1-byte alignment pad of c to the length that aligns the field
+// after it on a 16-bit boundary from the start of the SMB header (32-byte header, WordCount
+// byte, parameter words, 2 ByteCount bytes, then the data-block byte slices declared before
+// the pad). The rule is computed here, independently of the library's decoder.
+func AlignPads(c ci.CommandInterface, rels []Relation) {
+	pads := PadFields(rels)
+	if len(pads) == 0 {
+		return
+	}
+	v := reflect.ValueOf(c).Elem()
+	t := v.Type()
+	for _, pf := range pads {
+		v.FieldByName(pf).SetBytes([]byte{})
+	}
+	var b []byte
+	var err error
+	if p, _, _ := mon.Guard(func() { b, err = c.Marshal() }); p || err != nil {
+		return
+	}
+	params, _, ok := Blocks(b)
+	if !ok {
+		return
+	}
+	for _, pf := range pads {
+		before := 0
+		for i := 0; i < t.NumField(); i++ {
+			sf := t.Field(i)
+			if sf.Name == pf {
+				break
+			}
+			if sf.Type.Kind() == reflect.Slice && sf.Type.Elem().Kind() == reflect.Uint8 {
+				before += v.Field(i).Len()
+			}
+		}
+		if (32+1+len(params)+2+before)%2 == 1 {
+			v.FieldByName(pf).SetBytes([]byte{0})
+		}
+	}
 }
